@@ -94,6 +94,11 @@ func ruleC18R1(c *Ctx) {
 	}
 	total, byRule, byTable := 0, 0, 0
 	usedTable := map[int]bool{}
+	usedBy := map[int]*ssa.Function{}
+	exactC18 := map[string]bool{}
+	for _, r := range c18Reviewed {
+		exactC18[r.fn] = true
+	}
 	for _, fn := range c.P.universe {
 		file, _ := c.P.posLine(fn.Pos())
 		if strings.HasSuffix(file, "testdump.go") || strings.HasSuffix(file, "test_helpers.go") {
@@ -111,11 +116,20 @@ func ruleC18R1(c *Ctx) {
 			}
 			found := false
 			for i, r := range c18Reviewed {
-				if r.fn == name && r.kind == b.Kind {
+				// closures are matched with their ordinal ignored; an entry covers as many sites as it did when it was
+				// reviewed (one per closure entry), so a second literal of the same parent with the same kind of
+				// blocking operation is not swallowed
+				same := r.fn == name || (strings.Contains(r.fn, "$") && normClosure(r.fn) == normClosure(name) && !exactC18[name])
+				if same && r.kind == b.Kind {
+					if strings.Contains(r.fn, "$") && r.fn != name && usedBy[i] != nil && usedBy[i] != fn {
+						continue // the entry already stands for another literal of this parent
+					}
+					usedBy[i] = fn
 					found = true
 					usedTable[i] = true
 					byTable++
 					c.assumed("C18.R1", fn, construct, b.In.Pos(), "reviewed: "+r.reason)
+					break
 				}
 			}
 			if !found {
